@@ -530,6 +530,10 @@ func runReentWorkload(wl workload, seed int64, scale int) (*childResult, error) 
 		}()
 	}
 	wg.Wait()
+	// the window between look-up and use: the method-name modifier changes the tool being called (window.go)
+	for vi := range windowVariants {
+		results = append(results, runWindowCase(vi, len(cases)+vi))
+	}
 	for _, r := range results {
 		switch {
 		case r.err != nil:
